@@ -92,8 +92,9 @@ Definition dc_entries (o : list (list Z)) : list (list Z) := entries Z o (match 
 Definition dc_select (o : list (list Z)) (s : rowsel) := obj_select Z o s.
 Definition dc_select_spec (o : list (list Z)) (s : rowsel) := rmap (cols Z 0%Z (length o)) (sel_rows s (dc_entries o)).
 Definition dc_item (o : list (list Z)) (i : Z) := obj_item Z o i.
+Definition dc_astype (o : list (list Z)) (keep : list Z) := (obj_astype Z o (map Z.to_nat keep), rmap (fun R => map (fun j => map (fun row : list Z => nth (Z.to_nat j) row 0%Z) R) keep) (if forallb (fun j => (0 <=? j)%Z && (j <? Z.of_nat (length o))%Z) keep then Ok (dc_entries o) else Refused)).
 Definition dc_item_spec (o : list (list Z)) (i : Z) := np_item (dc_entries o) i.
 Definition dc_concat (os : list (list (list Z))) := obj_concat Z os.
 Definition dc_eq (o o' : list (list Z)) : bool := Nat.eqb (length o) (length o') && obj_eqb Z Z.eqb o o'.
 Definition dc_concat_spec (os : list (list (list Z))) := cols Z 0%Z (match os with [] => O | o :: _ => length o end) (flat_map dc_entries os).
-Extraction "oracle_core.ml" geo_model geo_spec build_model build_spec flat_model flat_spec tonumpy_model tonumpy_spec fromnumpy_model offsets_model offsets_spec mi_model mi_spec heap_run dc_new dc_new_spec dc_select dc_select_spec dc_item dc_item_spec dc_concat dc_concat_spec dc_eq from_ragged from_matrix rl2_obs rl2_select rl2_elem rl2_col rl2_sum rl2_max rl2_argmax rl2_ravel rl2_concat rl2_map rl2_map_col rl2_col_counts rl2_col_sum rl2_col_range rl2_intervals varlen_concat op_ufunc op_reduce op_cumsum op_accumulate op_diff op_sort op_unique op_nonzero op_subset op_rslice op_padded op_colsum op_colcounts op_argmax op_argmin rle_windows_Z rle_rlmask_Z op_fastidx op_where op_where_s op_like op_concat1 rle_encode rle_to_array rle_slice rle_slice_spec rle_get rle_bin rle_bin_spec rle_concat_Z rle_sum_Z rle_decode bit_unpack bit_get bit_getlist bit_window spec_windows Z.add Z.mul Z.opp Z.div_eucl Z.ltb hash_model hash_spec hash_eq setitem_model_Z setitem_spec_Z getitem_model_Z getitem_spec_Z chain_model_Z chain_spec_Z shape_codes sh_starts sh_lengths sh_size excl_prefix.
+Extraction "oracle_core.ml" geo_model geo_spec build_model build_spec flat_model flat_spec tonumpy_model tonumpy_spec fromnumpy_model offsets_model offsets_spec mi_model mi_spec heap_run dc_new dc_new_spec dc_select dc_select_spec dc_item dc_item_spec dc_astype dc_concat dc_concat_spec dc_eq from_ragged from_matrix rl2_obs rl2_select rl2_elem rl2_col rl2_sum rl2_max rl2_argmax rl2_ravel rl2_concat rl2_map rl2_map_col rl2_col_counts rl2_col_sum rl2_col_range rl2_intervals varlen_concat op_ufunc op_reduce op_cumsum op_accumulate op_diff op_sort op_unique op_nonzero op_subset op_rslice op_padded op_colsum op_colcounts op_argmax op_argmin rle_windows_Z rle_rlmask_Z op_fastidx op_where op_where_s op_like op_concat1 rle_encode rle_to_array rle_slice rle_slice_spec rle_get rle_bin rle_bin_spec rle_concat_Z rle_sum_Z rle_decode bit_unpack bit_get bit_getlist bit_window spec_windows Z.add Z.mul Z.opp Z.div_eucl Z.ltb hash_model hash_spec hash_eq setitem_model_Z setitem_spec_Z getitem_model_Z getitem_spec_Z chain_model_Z chain_spec_Z shape_codes sh_starts sh_lengths sh_size excl_prefix.
